@@ -1,11 +1,282 @@
-//! Engine B front-end: properties decided (partly) by running the macro bodies in-process.
+//! Engine B front-end (C07 layer 1, C20 layer 2) and the rustc compile-fail layer of C20.
 
-use crate::corpus::Env;
-use crate::Outcome;
-use serde_json::Value;
+use crate::corpus::*;
+use crate::{new_outcome, Outcome, Violation};
+use serde_json::{json, Value};
+use std::collections::{BTreeMap, BTreeSet};
+use std::process::Command;
+use std::time::Duration;
+use vmodel::emit::{ModuleSrc, Src};
+use vmodel::gen::Rg;
+use vmodel::malformed;
+use vmodel::spec::EnumSpec;
 
-pub fn run(_env: &Env, _id: &str, _tier: &str, _seed: u64, _out: &mut Outcome) {}
+fn build_vinproc(env: &Env) -> Result<std::path::PathBuf, String> {
+    let mut cmd = Command::new("cargo");
+    cmd.args(["build", "--offline", "--release", "-q", "-p", "vinproc"])
+        .current_dir(env.verif.join("engine"))
+        .env("REPO_ROOT", &env.repo)
+        .env("CARGO_NET_OFFLINE", "true");
+    let (code, _o, e) = run_with_timeout(cmd, Duration::from_secs(600));
+    if code != Some(0) {
+        return Err(format!("in-process harness does not build against this tree (a *_inner entry point or helper module was renamed?):\n{}", e.lines().rev().take(15).collect::<Vec<_>>().into_iter().rev().collect::<Vec<_>>().join("\n")));
+    }
+    Ok(env.verif.join("engine/target/release/vinproc"))
+}
 
-pub fn replay(_env: &Env, _id: &str, _doc: &Value) -> (i32, Outcome) {
-    (0, crate::new_outcome())
+fn run_vinproc(env: &Env, id: &str, tier: &str, seed: u64, replay: Option<&Value>, out: &mut Outcome) {
+    let exe = match build_vinproc(env) {
+        Ok(e) => e,
+        Err(m) => {
+            out.inconclusive = Some(m);
+            return;
+        }
+    };
+    let dir = env.verif.join("work").join(id).join("inproc");
+    std::fs::create_dir_all(&dir).unwrap();
+    let rep_path = dir.join("report.json");
+    let _ = std::fs::remove_file(&rep_path);
+    let mut cmd = Command::new(&exe);
+    cmd.arg(id.to_lowercase()).arg(tier).arg(seed.to_string()).arg(&rep_path);
+    if let Some(r) = replay {
+        let rp = dir.join("replay.json");
+        std::fs::write(&rp, serde_json::to_string(r).unwrap()).unwrap();
+        cmd.arg("--replay").arg(&rp);
+    }
+    let (code, _o, e) = run_with_timeout(cmd, Duration::from_secs(if tier == "thorough" { 3600 } else { 900 }));
+    if code != Some(0) {
+        out.inconclusive = Some(format!("in-process engine failed (exit {:?}): {}", code, e.lines().rev().take(5).collect::<Vec<_>>().join(" | ")));
+        return;
+    }
+    let rep: Value = serde_json::from_str(&std::fs::read_to_string(&rep_path).unwrap_or_default()).unwrap_or(Value::Null);
+    if rep.is_null() {
+        out.inconclusive = Some("in-process engine wrote no report".into());
+        return;
+    }
+    out.agg.evaluations += rep["evaluations"].as_u64().unwrap_or(0);
+    out.agg.nontrivial += rep["nontrivial"].as_u64().unwrap_or(0);
+    let mut ip = serde_json::Map::new();
+    ip.insert("evaluations".into(), rep["evaluations"].clone());
+    ip.insert("distinct_nontrivial".into(), rep["nontrivial"].clone());
+    ip.insert("classes".into(), rep["classes"].clone());
+    ip.insert("exhaustive_subspaces".into(), rep["exhaustive"].clone());
+    out.extra.insert("inprocess".into(), Value::Object(ip));
+    if let Some(ex) = rep["exhaustive"].as_object() {
+        for (k, v) in ex {
+            *out.agg.exhaustive.entry(format!("in-process: {}", k)).or_insert(0) += v.as_u64().unwrap_or(0);
+        }
+    }
+    if let Some(s) = rep["samples"].as_array() {
+        for x in s.iter().take(4) {
+            out.agg.samples.push(x.clone());
+        }
+    }
+    if let Some(fs) = rep["failures"].as_array() {
+        for f in fs {
+            out.violations.push(Violation {
+                kind: format!("inproc:{}", f["kind"].as_str().unwrap_or("?")),
+                enum_name: String::new(),
+                spec: None,
+                detail: json!({"input": f["input"], "expected": f["expected"], "actual": f["actual"]}),
+                profile: "dev".into(),
+            });
+        }
+    }
+}
+
+pub fn run(env: &Env, id: &str, tier: &str, seed: u64, out: &mut Outcome) {
+    match id {
+        "C07" => run_vinproc(env, id, tier, seed, None, out),
+        "C20" => {
+            out.rule = "layer 1 (rustc, `cargo check`): every rejection rule of the statement (30 rule kinds incl. every repeated single-use key) instantiated with generated variations (variant kind, position among valid variants, same attribute / several attributes / interleaved) on every derive that consumes the offending construct, one item per (case, derive) cell, plus sampled non-required derives and valid controls; oracle per required cell: >= 1 error diagnostic attributed to the item and none saying 'proc-macro derive panicked'; per optional cell: no panic; controls: no diagnostic, and a controls-only crate builds cleanly. Layer 2 (in-process, all 16 derives that can run outside rustc): the same grammar at volume plus token-level mutations of valid and invalid items; oracle: never a panic, required cells return Err, controls return tokens that parse as items. Non-trivial = distinct (rule, derive, variation) cells on required derives.".into();
+            out.assumptions = vec![
+                "a rule is only REQUIRED to reject on derives that consume the construct (DESIGN §6 C20 table); elsewhere only 'no panic' is demanded".into(),
+                "'reported at the offending item' is checked at item granularity (diagnostic span inside the item's module)".into(),
+                "FromRepr cannot run in-process (uses proc_macro::TokenStream directly); it is covered by layer 1 only".into(),
+            ];
+            run_vinproc(env, id, tier, seed, None, out);
+            if out.inconclusive.is_none() {
+                layer1(env, tier, seed, out);
+            }
+        }
+        _ => {}
+    }
+}
+
+pub fn replay(env: &Env, id: &str, doc: &Value) -> (i32, Outcome) {
+    let mut out = new_outcome();
+    let kind = doc["kind"].as_str().unwrap_or("").to_string();
+    if let Some(k) = kind.strip_prefix("inproc:") {
+        let r = json!({"kind": k, "input": doc["detail"]["input"]});
+        run_vinproc(env, id, "quick", doc["seed"].as_u64().unwrap_or(0), Some(&r), &mut out);
+    } else if kind.starts_with("rustc:") {
+        let cell: Cell = serde_json::from_value(doc["detail"]["cell"].clone()).expect("cell");
+        check_cells(env, &[cell], &mut out, "replay");
+    }
+    let code = if out.inconclusive.is_some() {
+        2
+    } else if !out.violations.is_empty() {
+        1
+    } else {
+        0
+    };
+    (code, out)
+}
+
+// ---------------------------------------------------------------------------------------------
+// C20 layer 1: rustc
+
+#[derive(Clone, Debug, serde::Serialize, serde::Deserialize)]
+pub struct Cell {
+    pub id: String,
+    pub case: malformed::Case,
+    pub derive: String,
+    /// "required" | "optional" | "control"
+    pub class: String,
+}
+
+fn cell_module(c: &Cell) -> ModuleSrc {
+    let mut src = Src::default();
+    src.push(&format!("pub mod m_{} {{", c.id.to_lowercase()));
+    src.push("use super::*;");
+    src.push(&format!("#[derive(strum::{})]", c.derive));
+    src.push(&c.case.source.replace("ITEM", "Item"));
+    src.push("pub fn run(_: &mut vrt::Ctx) {}");
+    src.push("}");
+    ModuleSrc { enum_name: c.id.clone(), src }
+}
+
+const HELPERS: &str = "pub struct MyErr; pub fn mk_err(_: &str) -> MyErr { MyErr } pub fn f() -> u8 { 0 } pub fn g() -> u8 { 0 }";
+
+fn check_cells(env: &Env, cells: &[Cell], out: &mut Outcome, sub: &str) {
+    let items: Vec<Item> = cells.iter().map(|c| Item { spec: EnumSpec::new(&c.id), module: cell_module(c) }).collect();
+    let mut cfg = CrateCfg::new(env, "C20", sub);
+    cfg.strum_features = vec!["derive".into(), "phf".into()];
+    cfg.header = vec!["#![allow(warnings)]".into(), HELPERS.into()];
+    let em = emit_crate(env, &cfg, &items, &BTreeSet::new()).expect("emit");
+    let b = cargo_build(env, &cfg, &em, true);
+    if b.timed_out {
+        out.inconclusive = Some("cargo check watchdog".into());
+        return;
+    }
+    if !b.foreign.is_empty() {
+        out.inconclusive = Some(format!("diagnostic outside generated items: {}", b.foreign[0].rendered.lines().take(10).collect::<Vec<_>>().join("\n")));
+        return;
+    }
+    let mut by: BTreeMap<String, Vec<&CompileError>> = BTreeMap::new();
+    for e in &b.errors {
+        by.entry(e.enum_name.clone().unwrap()).or_default().push(e);
+    }
+    let empty: Vec<&CompileError> = vec![];
+    for c in cells {
+        let errs = by.get(&c.id).unwrap_or(&empty);
+        out.agg.evaluations += 1;
+        *out.agg.classes.entry(format!("rustc:{}", c.class)).or_insert(0) += 1;
+        let panicked = errs.iter().find(|e| e.message.contains("panicked") || e.rendered.contains("proc-macro derive panicked"));
+        let input = json!({"rule": c.case.rule, "variation": c.case.variation, "derive": c.derive, "source": c.case.source});
+        let mut v = |kind: String, expected: &str, actual: String| {
+            out.violations.push(Violation {
+                kind,
+                enum_name: String::new(),
+                spec: None,
+                detail: json!({"input": input, "expected": expected, "actual": actual, "cell": c}),
+                profile: "dev".into(),
+            });
+        };
+        if let Some(p) = panicked {
+            v(format!("rustc:macro-panic:{}", c.derive), "a compile error, never a macro panic", p.rendered.lines().take(8).collect::<Vec<_>>().join("\n"));
+            continue;
+        }
+        match c.class.as_str() {
+            "required" => {
+                if errs.is_empty() {
+                    v(format!("rustc:silently-accepted:{}:{}", c.case.rule, c.derive), "an error diagnostic at the item", "no diagnostic for this item".into());
+                }
+            }
+            "control" => {
+                if let Some(e) = errs.first() {
+                    v(format!("rustc:valid-input-rejected:{}", c.derive), "no diagnostic", e.rendered.lines().take(8).collect::<Vec<_>>().join("\n"));
+                }
+            }
+            _ => {}
+        }
+    }
+}
+
+fn layer1(env: &Env, tier: &str, seed: u64, out: &mut Outcome) {
+    let thorough = tier == "thorough";
+    let rounds = if thorough { 6 } else { 1 };
+    let per_rule = if thorough { 16 } else { 8 };
+    let mut nontrivial: BTreeSet<u64> = BTreeSet::new();
+    for round in 0..rounds {
+        let mut rg = Rg::from_seed(vmodel::derive_seed(seed, "c20-layer1", round, 0));
+        let mut cells: Vec<Cell> = Vec::new();
+        let mut n = 0;
+        for rule in malformed::RULES.iter() {
+            for _ in 0..per_rule {
+                let case = malformed::gen_case(&mut rg, rule);
+                for dn in &case.must_reject {
+                    n += 1;
+                    nontrivial.insert(vmodel::fnv(format!("{}|{}|{}", case.rule, dn, case.variation).as_bytes()));
+                    cells.push(Cell { id: format!("K{}x{:05}", round, n), case: case.clone(), derive: dn.clone(), class: "required".into() });
+                }
+                // two derives that are not required to reject: only "no panic"
+                // (FromRepr cannot run in-process, so it is always among them; raw identifiers meet every derive)
+                let mut opt: Vec<&str> = vec![*rg.pick(&malformed::ALL_DERIVES), *rg.pick(&malformed::ALL_DERIVES), "FromRepr"];
+                if case.variation.starts_with("raw identifiers") {
+                    opt = malformed::ALL_DERIVES.to_vec();
+                }
+                opt.sort();
+                opt.dedup();
+                for dn in opt {
+                    if !case.must_reject.iter().any(|x| x == dn) {
+                        n += 1;
+                        cells.push(Cell { id: format!("K{}x{:05}", round, n), case: case.clone(), derive: dn.to_string(), class: "optional".into() });
+                    }
+                }
+            }
+        }
+        for case in malformed::controls() {
+            for dn in &case.must_accept {
+                n += 1;
+                cells.push(Cell { id: format!("K{}x{:05}", round, n), case: case.clone(), derive: dn.clone(), class: "control".into() });
+            }
+        }
+        if round == 0 {
+            for c in cells.iter().filter(|c| c.class == "required").step_by(97).take(4) {
+                out.agg.samples.push(json!({"layer": "rustc", "rule": c.case.rule, "derive": c.derive, "variation": c.case.variation, "source": c.case.source}));
+            }
+        }
+        out.agg.programs += cells.len() as u64;
+        check_cells(env, &cells, out, "l1");
+        if out.inconclusive.is_some() || !out.violations.is_empty() {
+            break;
+        }
+        // controls alone must build cleanly (full type check, not only expansion)
+        if round == 0 {
+            let ctrl: Vec<Cell> = cells.iter().filter(|c| c.class == "control").cloned().collect();
+            let items: Vec<Item> = ctrl.iter().map(|c| Item { spec: EnumSpec::new(&c.id), module: cell_module(c) }).collect();
+            let mut cfg = CrateCfg::new(env, "C20", "l1ok");
+            cfg.strum_features = vec!["derive".into(), "phf".into()];
+            cfg.header = vec!["#![allow(warnings)]".into(), HELPERS.into()];
+            let em = emit_crate(env, &cfg, &items, &BTreeSet::new()).expect("emit");
+            let b = cargo_build(env, &cfg, &em, true);
+            out.agg.evaluations += ctrl.len() as u64;
+            if !b.success {
+                if let Some(e) = b.errors.first() {
+                    let c = ctrl.iter().find(|c| Some(&c.id) == e.enum_name.as_ref()).unwrap();
+                    out.violations.push(Violation {
+                        kind: format!("rustc:valid-input-rejected:{}", c.derive),
+                        enum_name: String::new(),
+                        spec: None,
+                        detail: json!({"input": {"rule": "valid", "derive": c.derive, "source": c.case.source}, "expected": "builds", "actual": e.rendered.lines().take(10).collect::<Vec<_>>().join("\n"), "cell": c}),
+                        profile: "dev".into(),
+                    });
+                } else {
+                    out.inconclusive = Some(format!("controls crate failed without attributable error: {}", b.stderr_tail));
+                }
+            }
+        }
+    }
+    out.agg.nontrivial += nontrivial.len() as u64;
 }
